@@ -288,7 +288,7 @@ func (u *fakeUp) handle(w []byte, proto string) (reply []byte, fail bool) {
 		ntxt = 6
 	}
 	u.tr().Emit("up.send", "up", u.tag, "proto", proto, "tok", int(tok), "name", labelsJS(name), "cls", cls, "typ", typ,
-		"rcode", b.rcode, "ttl", b.ttl, "ttls", ttls, "tc", b.has('T'), "kind", kind, "nodata", b.has('N'), "soa", b.has('N') || (b.rcode == 3 && b.has('A')), "opt", b.has('O'), "ntxt", ntxt)
+		"rcode", b.rcode, "ttl", b.ttl, "ttls", ttls, "tc", b.has('T'), "kind", kind, "nodata", b.has('N') || b.has('E'), "soa", b.has('N') || (b.rcode != 0 && b.has('A')), "opt", b.has('O'), "ntxt", ntxt)
 	if kind == "silent" {
 		return nil, false
 	}
@@ -300,7 +300,7 @@ func (u *fakeUp) handle(w []byte, proto string) (reply []byte, fail bool) {
 	r.Rcode = b.rcode
 	r.Truncated = b.has('T')
 	r.RecursionAvailable = true
-	if len(q.Question) > 0 && !b.has('N') && (b.rcode == 0) {
+	if len(q.Question) > 0 && !b.has('N') && !b.has('E') && (b.rcode == 0) {
 		for i, t := range ttls {
 			var ip [4]byte
 			binary.BigEndian.PutUint32(ip[:], tok)
@@ -348,7 +348,7 @@ func (u *fakeUp) handle(w []byte, proto string) (reply []byte, fail bool) {
 		}
 		r.Compress = true
 	}
-	if b.has('N') || b.rcode == 3 && b.has('A') {
+	if b.has('N') || b.rcode != 0 && b.has('A') {
 		r.Ns = append(r.Ns, &dns.SOA{Hdr: dns.RR_Header{Name: "test.", Rrtype: dns.TypeSOA, Class: dns.ClassINET, Ttl: uint32(b.ttl)}, Ns: "ns.test.", Mbox: "m.test.", Serial: tok, Refresh: 1, Retry: 2, Expire: 3, Minttl: 4})
 	}
 	if b.has('O') {
